@@ -965,3 +965,159 @@ func loopHead(st ast.Stmt) ast.Expr {
 	}
 	return &ast.Ident{Name: "loop"}
 }
+
+// rulePolyHoles (C01/C02/C03): a polygon is its exterior minus its holes.
+// Every Poly predicate is run on the interpreter with the ring kernels opaque
+// and its loops over the holes unrolled for up to two holes (distinct opaque
+// rings); the answer must be the stated combination of the kernel verdicts —
+// in particular no acceptance may skip the hole scan, and state must not leak
+// from one hole to the next.
+func (p *Program) rulePolyHoles(c *Check) {
+	kernels := map[*types.Func]bool{}
+	for _, n := range []string{"ringContainsPoint", "ringContainsLine", "ringIntersectsLine", "ringContainsRing", "ringIntersectsRing", "ringContainsSegment", "ringIntersectsSegment"} {
+		if f := p.Func("geometry", n); f != nil {
+			kernels[f] = true
+		}
+	}
+	// truth of the kernel atom whose name contains all of subs (and, for point results, its .hit)
+	find := func(a *e8assign, n *e8names, subs ...string) (bool, bool) {
+		for _, b := range n.bools {
+			ok := true
+			for _, s := range subs {
+				if !strings.Contains(b, s) {
+					ok = false
+				}
+			}
+			if ok {
+				return a.B(b), true
+			}
+		}
+		return false, false
+	}
+	more := func(a *e8assign, n *e8names, slice string, j int) bool {
+		for k := 0; k <= j; k++ {
+			v, ok := find(a, n, "more(", slice, fmt.Sprintf(")#%d", k))
+			if !ok || !v {
+				return false
+			}
+		}
+		return true
+	}
+	type spec struct {
+		method string
+		what   string
+		want   func(a *e8assign, n *e8names) (bool, string)
+	}
+	holeFree := func(kernel string, slice string) func(a *e8assign, n *e8names) bool {
+		return func(a *e8assign, n *e8names) bool {
+			for j := 0; j < 2; j++ {
+				if more(a, n, slice, j) {
+					if v, ok := find(a, n, kernel+"(", fmt.Sprintf("%s[#%d]", slice, j)); ok && v {
+						return false
+					}
+				}
+			}
+			return true
+		}
+	}
+	specs := []spec{
+		{"ContainsPoint", "in the exterior (boundary included) and in no hole (a hole's boundary belongs to the polygon)", func(a *e8assign, n *e8names) (bool, string) {
+			e, ok := find(a, n, "ringContainsPoint(", "Exterior", ".hit")
+			if !ok {
+				return false, "the exterior is never tested"
+			}
+			return e && holeFree("ringContainsPoint", "recv.Holes")(a, n), ""
+		}},
+		{"ContainsLine", "the exterior contains the line and no hole intersects it", func(a *e8assign, n *e8names) (bool, string) {
+			e, ok := find(a, n, "ringContainsLine(", "Exterior")
+			if !ok {
+				return false, "the exterior is never tested"
+			}
+			return e && holeFree("ringIntersectsLine", "recv.Holes")(a, n), ""
+		}},
+		{"IntersectsLine", "the exterior intersects the line and no hole contains it", func(a *e8assign, n *e8names) (bool, string) {
+			e, ok := find(a, n, "ringIntersectsLine(", "Exterior")
+			if !ok {
+				return false, "the exterior is never tested"
+			}
+			return e && holeFree("ringContainsLine", "recv.Holes")(a, n), ""
+		}},
+		{"IntersectsPoly", "the exteriors intersect and no hole of either polygon contains the other's exterior", func(a *e8assign, n *e8names) (bool, string) {
+			e, ok := find(a, n, "ringIntersectsRing(", "Exterior")
+			if !ok {
+				return false, "the exteriors are never tested"
+			}
+			return e && holeFree("ringContainsRing", "recv.Holes")(a, n) && holeFree("ringContainsRing", "p0.Holes")(a, n), ""
+		}},
+		{"ContainsPoly", "the exterior contains the other exterior, and every hole that the other exterior intersects lies inside one of the other polygon's holes", func(a *e8assign, n *e8names) (bool, string) {
+			e, ok := find(a, n, "ringContainsRing(recv.Exterior", "p0.Exterior")
+			if !ok {
+				return false, "the exteriors are never tested"
+			}
+			if !e {
+				return false, ""
+			}
+			for j := 0; j < 2; j++ {
+				if !more(a, n, "recv.Holes", j) {
+					continue
+				}
+				hit, _ := find(a, n, "ringIntersectsRing(", fmt.Sprintf("recv.Holes[#%d]", j), "p0.Exterior")
+				if !hit {
+					continue
+				}
+				covered := false
+				for k := 0; k < 2; k++ {
+					if more(a, n, "p0.Holes", k) {
+						if v, ok := find(a, n, "ringContainsRing(", fmt.Sprintf("p0.Holes[#%d]", k), fmt.Sprintf("recv.Holes[#%d]", j)); ok && v {
+							covered = true
+						}
+					}
+				}
+				if !covered {
+					return false, ""
+				}
+			}
+			return true, ""
+		}},
+	}
+	n := 0
+	for _, sp := range specs {
+		fn := p.Method("geometry", "Poly", sp.method)
+		if fn == nil || p.Decl(fn) == nil {
+			c.Undecided("E12.holes", "anchor:(*geometry.Poly)."+sp.method, "", "method not found")
+			continue
+		}
+		n++
+		sp := sp
+		before := len(c.Obs)
+		p.runE8(c, &e8row{id: "(*geometry.Poly)." + sp.method + "#holes", fn: fn, opaque: kernels, rangeMax: 2, maxBools: 16,
+			what: "for polygons with up to two holes (and two holes of the operand): " + sp.what,
+			pre: func(a *e8assign, nm *e8names) bool {
+				// receiver and operand are present (the nil guards are T3's business)
+				for _, b := range nm.bools {
+					if v, ok := a.bools[b]; ok && v && strings.HasPrefix(b, "isnil(") {
+						return false
+					}
+				}
+				return true
+			},
+			spec: func(a *e8assign, nm *e8names, out *e8out) string {
+				got, ok := retBool(out)
+				if !ok {
+					return "no boolean result"
+				}
+				want, why := sp.want(a, nm)
+				if why != "" {
+					return why
+				}
+				if got != want {
+					return fmt.Sprintf("answers %v where the kernels' verdicts give %v", got, want)
+				}
+				return ""
+			}})
+		for _, o := range c.Obs[before:] {
+			o.Rule = "E12.holes"
+		}
+	}
+	c.Floor("E12.holes", n, 5, "Poly predicates with a hole scan")
+}
